@@ -37,8 +37,10 @@ func reorgStorm(r *ev.Run, caseID string) {
 	}
 	known := map[string]bool{m.Genesis.Hash.String(): true}
 	prev := m.Genesis.Hash
+	var submitted []refmodel.Hdr // everything handed to Chains.Add, in order (for the replay without readers)
 	for i := 0; i < 2+rng.Intn(4); i++ {
 		h := mk(prev, gen.BitsNormal)
+		submitted = append(submitted, h)
 		mb.Step(st, m, h)
 		known[h.HashOf().String()] = true
 		prev = h.HashOf()
@@ -116,6 +118,7 @@ func reorgStorm(r *ev.Run, caseID string) {
 	li, hi, flips, down := 0, 0, 0, 0
 	diverged := false
 	failedCode := ""
+	staleAfter, tipChecks, staleWhat := 0, 0, ""
 	for flips < nFlips && li < len(light) && hi < len(heavy) && !diverged {
 		onLight := li > 0 && refmodel.IsAncestor(m.Nodes[light[0].HashOf()], m.Best())
 		var h refmodel.Hdr
@@ -129,12 +132,14 @@ func reorgStorm(r *ev.Run, caseID string) {
 		if (li+hi)%40 == 39 {
 			// now and then a peer delivers a header on the forbidden list: refused, and nothing else is held back
 			fb := mb.ForbiddenHeaders()[(li+hi)/40%2]
+			submitted = append(submitted, fb)
 			if si := mb.Step(st, m, fb); si.Res.Panic != nil || si.Res.Code() != mb.WantCode(si.Outcome) {
 				diverged = true
 				break
 			}
 		}
 		before := m.Best()
+		submitted = append(submitted, h)
 		si := mb.Step(st, m, h)
 		if si.Res.Panic != nil || si.Res.Code() != mb.WantCode(si.Outcome) {
 			diverged = true
@@ -144,6 +149,21 @@ func reorgStorm(r *ev.Run, caseID string) {
 					failedCode = "panic"
 				}
 				firstBad.CompareAndSwap(nil, fmt.Sprintf("Chains.Add: %v %v", si.Res.Err, si.Res.Panic))
+			}
+		}
+		if !diverged {
+			// the submitter is the only writer: once Add has returned, the tip IS the outcome of that submission - whatever
+			// the readers asked for while it was being written
+			tipChecks++
+			if t := st.Svc.Headers.GetTip(); t == nil || refmodel.Hash(t.Hash) != m.Best().Hash {
+				staleAfter++
+				if staleWhat == "" {
+					got := "<nil>"
+					if t != nil {
+						got = fmt.Sprintf("%s (height %d)", t.Hash.String(), t.Height)
+					}
+					staleWhat = fmt.Sprintf("after submission #%d had returned, Headers.GetTip() answered %s; the tip is %s (height %d)", len(submitted), got, m.Best().Hash.String(), m.Best().Height)
+				}
 			}
 		}
 		if si.Reorg {
@@ -158,6 +178,7 @@ func reorgStorm(r *ev.Run, caseID string) {
 	r.Count("storm_reorganisations", int64(flips))
 	r.Count("storm_reorganisations_to_a_lower_height", int64(down))
 	r.Count("storm_tip_reads", reads.Load())
+	r.Count("storm_tip_checks_by_the_submitter", int64(tipChecks))
 	detail := map[string]any{"reorganisations": flips, "to_a_lower_height": down, "tip_reads": reads.Load(), "first_bad_answer": firstBad.Load()}
 	switch {
 	case failedCode != "":
@@ -166,7 +187,16 @@ func reorgStorm(r *ev.Run, caseID string) {
 	case panics.Load() > 0:
 		r.Violate("storm|reader-panicked", fmt.Sprintf("%d locator reads panicked while the best chain flipped between two branches: %v", panics.Load(), firstBad.Load()), caseID, detail)
 		return
+	case staleAfter > 0:
+		r.Violate("storm|tip-after-a-completed-submission-is-not-its-outcome", fmt.Sprintf("%d of %d tip reads made by the only submitter right after its own submission had returned named another header than that submission's outcome (6 readers were asking for the tip meanwhile): %s", staleAfter, tipChecks, staleWhat), caseID, detail)
+		return
 	case diverged:
+		// The same submissions, in the same order, with nobody reading: if the store then does what the model says, the
+		// readers changed the outcome.
+		if replayAlone(r, submitted) {
+			r.Violate("storm|outcome-differs-while-readers-are-active", fmt.Sprintf("submission #%d was answered or stored differently from a sequential ingestion of the same %d headers; replayed on a fresh store with no reader active, all %d submissions come out as the model says", len(submitted), len(submitted), len(submitted)), caseID, detail)
+			return
+		}
 		r.Count("storms_cut_short_by_ingest_divergence", 1)
 		return
 	case nilTips.Load() > 0 || bad5xx.Load() > 0:
@@ -186,6 +216,28 @@ func reorgStorm(r *ev.Run, caseID string) {
 	r.Count("storms_completed", 1)
 	r.Cases(1)
 	r.Distinct(fmt.Sprintf("storm|flips=%d|down=%d", flips, down))
+}
+
+// replayAlone ingests the headers into a fresh store with no reader active and reports whether every answer and the
+// final table agree with the model.
+func replayAlone(r *ev.Run, hs []refmodel.Hdr) bool {
+	st, err := rig.New(rig.Options{Dir: r.Scratch, Name: "c15-storm-replay.db", NoHTTP: true})
+	if err != nil {
+		return false
+	}
+	defer st.Destroy()
+	m := mb.NewModel()
+	for _, h := range hs {
+		si := mb.Step(st, m, h)
+		if si.Res.Panic != nil || si.Res.Code() != mb.WantCode(si.Outcome) {
+			return false
+		}
+	}
+	t, err := snap.TakeHeaders(st.DB)
+	if err != nil {
+		return false
+	}
+	return len(mb.CompareTable(m, t, false)) == 0
 }
 
 var _ = ev.Spec{}
